@@ -243,13 +243,7 @@ theorem natDigits_ne_nil (n : Nat) : natDigits n ≠ [] := by
 theorem intLit_pyInt (i : Int) : intLit (pyInt i) = some i := by
   obtain ⟨neg, n, e, hv⟩ := pyInt_eq i
   unfold intLit
-  rw [e, chomp_of_last, intLitCore_digits, hv]
-  intro l hl
-  have hne := natDigits_ne_nil n
-  rw [List.getLast?_append, List.getLast?_eq_some_getLast hne] at hl
-  simp at hl
-  subst hl
-  exact (isDigit_ne (natDigitsF_digits _ _ _ (List.getLast_mem _))).2.2.2.2.1
+  rw [e, intLitCore_digits, hv]
 
 /-! ### `sorted()` on strings: a function of the multiset -/
 
@@ -1711,7 +1705,7 @@ theorem form1_lits {v : Str} (h : Form1 v) : intLit v = none ∧ realLit v = tru
   have hdotd : isDigit '.' = false := by decide
   constructor
   · -- no integer literal: the text contains a '.'
-    unfold intLit; rw [hchomp]
+    unfold intLit
     unfold intLitCore; rw [hsp]
     simp only
     have hlast : ∃ l, (i0 :: (is ++ '.' :: (fp ++ ex))).getLast? = some l ∧ isDigit l = true := by
@@ -2270,5 +2264,11 @@ def isValueError {α : Type} (r : Except PyExc α) : Bool :=
   match r with
   | .error .valueError => true
   | _ => false
+
+theorem isValueError_eq {r : Except PyExc Path} (h : isValueError r = true) : r = .error .valueError := by
+  unfold isValueError at h
+  split at h
+  · rfl
+  · cases h
 
 end Proofs.Uri
